@@ -99,22 +99,27 @@ Proof.
 Qed.
 
 (* pvDeleteBlock returns a buffer to the memory manager only when the push made its freeBlockCount equal to blockCount ... *)
+Lemma returned_setp w p x : returned (setp w p x) = returned w.
+Proof. destruct p; reflexivity. Qed.
+Lemma fc_setp w p x : fc (setp w p x) = fc w.
+Proof. destruct p; reflexivity. Qed.
+
 Theorem delete_returns_only_full C w p bk x :
   In x (returned (pvDeleteBlock C w p bk)) -> In x (returned w) \/ (x = fst bk /\ fc w x + 1 = C).
 Proof.
-  unfold pvDeleteBlock. cbv zeta.
-  set (w2 := set_bytes (set_nx w (fst bk) (snd bk) (fb w (fst bk))) (fst bk) (snd bk) (fc w (fst bk) + 1)).
-  assert (returned w2 = returned w) as R by reflexivity.
-  assert (forall q y, returned (setp w2 q y) = returned w) as RS by (intros q y; destruct q; reflexivity).
-  assert (forall v q y a b c, In x (returned (add_returned (set_bytes (setp w2 q y) a b c) v)) -> x = v \/ In x (returned w)) as RA.
-  { intros v q y a b c H. destruct q; simpl in H; destruct H as [H|H]; auto. }
-  destruct (Z.eqb_spec (fc w (fst bk) + 1) C) as [E|E].
-  - destruct (fst bk =? hd0 _).
-    + destruct (hd0 (tl0 _) =? 0).
-      * intros H. left. rewrite RS in H. exact H.
-      * intros H. apply RA in H. destruct H as [H|H]; [right; subst; auto|left; exact H].
-    + intros H. apply RA in H. destruct H as [H|H]; [right; subst; auto|left; exact H].
-  - intros H. left. rewrite RS in H. exact H.
+  unfold pvDeleteBlock. cbv zeta. set (w1 := push w bk).
+  set (w2 := if fc w1 (fst bk) =? 1 then move_head w1 p (fst bk) else w1).
+  assert (returned w2 = returned w) as R.
+  { unfold w2, move_head, set_lists. destruct (fc w1 (fst bk) =? 1); [rewrite returned_setp|]; reflexivity. }
+  assert (fc w2 (fst bk) = fc w (fst bk) + 1) as F.
+  { unfold w2, move_head, set_lists. destruct (fc w1 (fst bk) =? 1); [rewrite fc_setp|]; unfold w1, push; simpl; apply upd_same. }
+  assert (forall b, returned (drop_head w2 p b) = b :: returned w2) as DH by (intros; unfold drop_head, set_lists; destruct p; reflexivity).
+  assert (forall b, returned (drop_mid w2 p b) = b :: returned w2) as DM by (intros; unfold drop_mid, set_lists; destruct p; reflexivity).
+  rewrite F. destruct (Z.eqb_spec (fc w (fst bk) + 1) C) as [E|E]; [|rewrite R; auto].
+  destruct (fst bk =? hd0 (lfree (getp w2 p))).
+  - destruct (hd0 (tl0 (lfree (getp w2 p))) =? 0); [rewrite R; auto|].
+    rewrite DH, R. intros [H|H]; [right; subst; auto|left; exact H].
+  - rewrite DM, R. intros [H|H]; [right; subst; auto|left; exact H].
 Qed.
 
 (* ... and then (chain without repetition, indexes in range) every block of that buffer is in its free chain: no block of a
@@ -133,39 +138,18 @@ Proof.
 Qed.
 
 (* ---------- the free-block cache (308-325, 285-306, 459-468) ---------- *)
-(* LIFO: a block deallocated into the cache is the very next block Allocate returns *)
-Theorem cache_lifo C CF w p bk : let w1 := Deallocate C CF true w p bk in snd (Allocate C true w1 p) = bk.
-Proof.
-  cbv zeta. unfold Deallocate, Allocate.
-  set (w0 := if CF <=? lenz (cache (getp w p)) then flush C w p else w).
-  destruct p; simpl; reflexivity.
-Qed.
-
+Lemma getp_setp w p x : getp (setp w p x) p = x.
+Proof. destruct p; reflexivity. Qed.
 Lemma lenz_nonneg {A} (l : list A) : 0 <= lenz l.
 Proof. induction l; cbn [lenz]; lia. Qed.
 
-Lemma flush_cache_empty C w p : cache (getp (flush C w p) p) = [].
-Proof. unfold flush. destruct p; reflexivity. Qed.
-
-Lemma getp_setp w p x : getp (setp w p x) p = x.
-Proof. destruct p; reflexivity. Qed.
-
-(* bounded: the cache never holds more than cachedFreeBlockCount blocks (it is flushed through pvDeleteBlock when full) *)
-Theorem cache_bounded C CF w p bk : 1 <= CF -> lenz (cache (getp w p)) <= CF ->
-  lenz (cache (getp (Deallocate C CF true w p bk) p)) <= CF.
+(* LIFO: a block deallocated into the cache is the very next block Allocate returns *)
+Theorem cache_lifo C CF w p bk : let w1 := Deallocate C CF true w p bk in snd (Allocate C true w1 p) = bk.
 Proof.
-  intros H1 H. unfold Deallocate. cbv zeta. rewrite !getp_setp. cbn [cache lenz].
-  destruct (Z.leb_spec CF (lenz (cache (getp w p)))) as [L|L].
-  - rewrite flush_cache_empty. cbn [lenz]. lia.
-  - lia.
+  cbv zeta. unfold Deallocate. cbv zeta.
+  set (w0 := if CF <=? lenz (cache (getp (remove_live w p bk) p)) then flush C (remove_live w p bk) p else remove_live w p bk).
+  unfold Allocate, set_cache. rewrite !getp_setp. cbn [cache]. reflexivity.
 Qed.
-
-(* flushed blocks go through pvDeleteBlock, most recently cached first *)
-Theorem flush_is_fold C w p :
-  exists w', w' = foldl (fun w bk => pvDeleteBlock C w p bk) (cache (getp w p)) w /\
-             lfull (getp (flush C w p) p) = lfull (getp w' p) /\ lfree (getp (flush C w p) p) = lfree (getp w' p) /\
-             fc (flush C w p) = fc w' /\ fb (flush C w p) = fb w' /\ returned (flush C w p) = returned w'.
-Proof. eexists. split; [reflexivity|]. unfold flush. destruct p; simpl; repeat split; reflexivity. Qed.
 
 (* without the cache (pvUseCache false) or when Allocate finds the cache empty, a freed block is the next one taken from its
    buffer: push then take returns it *)
@@ -190,45 +174,76 @@ Definition caches (w : cworld) : list blk * list blk := (cache (cp0 w), cache (c
 
 Lemma caches_setp_same w p x : cache x = cache (getp w p) -> caches (setp w p x) = caches w.
 Proof. destruct p; unfold caches; simpl; intros ->; reflexivity. Qed.
-
-Lemma new_buffer_caches C w : caches (fst (new_buffer C w)) = caches w.
-Proof. reflexivity. Qed.
-
+Lemma set_lists_caches w p a b : caches (set_lists w p a b) = caches w.
+Proof. unfold set_lists. apply caches_setp_same. reflexivity. Qed.
+Lemma attach_new_caches C w p : caches (attach_new C w p) = caches w.
+Proof. unfold attach_new, new_buffer. rewrite set_lists_caches. reflexivity. Qed.
+Lemma take_caches w p : caches (fst (take w p)) = caches w.
+Proof. unfold take. cbv zeta. simpl fst. destruct (_ =? 0); [rewrite set_lists_caches|]; reflexivity. Qed.
 Lemma pvNewBlock_caches C w p : caches (fst (pvNewBlock C w p)) = caches w.
 Proof.
-  unfold pvNewBlock. destruct (lfree (getp w p)) as [|a l] eqn:E; cbv zeta; simpl fst;
-  repeat match goal with
-         | |- context [if ?c then _ else _] => destruct c
-         end; destruct p; reflexivity.
+  unfold pvNewBlock. cbv zeta. rewrite take_caches.
+  match goal with |- caches (if ?c then _ else _) = _ => destruct c end; [rewrite attach_new_caches|];
+  (destruct (lfree (getp w p)); [apply attach_new_caches|reflexivity]).
 Qed.
-
 Lemma pvDeleteBlock_caches C w p bk : caches (pvDeleteBlock C w p bk) = caches w.
 Proof.
-  unfold pvDeleteBlock. cbv zeta.
-  repeat match goal with |- context [if ?c then _ else _] => destruct c end; destruct p; reflexivity.
+  unfold pvDeleteBlock. cbv zeta. set (w1 := push w bk).
+  set (w2 := if fc w1 (fst bk) =? 1 then move_head w1 p (fst bk) else w1).
+  assert (caches w2 = caches w) as E.
+  { unfold w2, move_head. destruct (fc w1 (fst bk) =? 1); [rewrite set_lists_caches|]; reflexivity. }
+  assert (forall b, caches (drop_head w2 p b) = caches w2) as DH.
+  { intros b. unfold drop_head. change (caches (set_lists w2 p (lfull (getp w2 p)) (tl0 (lfree (getp w2 p)))) = caches w2). apply set_lists_caches. }
+  assert (forall b, caches (drop_mid w2 p b) = caches w2) as DM.
+  { intros b. unfold drop_mid. change (caches (set_lists w2 p (removez b (lfull (getp w2 p))) (removez b (lfree (getp w2 p)))) = caches w2). apply set_lists_caches. }
+  repeat match goal with |- context [if ?c then _ else _] => destruct c end; rewrite ?DH, ?DM; exact E.
 Qed.
 
 Lemma foldl_caches {B} (g : cworld -> B -> cworld) l : (forall w b, caches (g w b) = caches w) ->
   forall w, caches (foldl g l w) = caches w.
 Proof. intros H. induction l as [|b t IH]; intros w; simpl; [reflexivity|]. rewrite IH. apply H. Qed.
 
-Lemma flush_caches C w p : caches (flush C w p) = (if p then (cache (cp0 w), []) else ([], cache (cp1 w))).
+Definition flushed (p : bool) (w : cworld) : list blk * list blk := if p then (cache (cp0 w), []) else ([], cache (cp1 w)).
+
+Lemma set_cache_caches w p c : caches (set_cache w p c) = (if p then (cache (cp0 w), c) else (c, cache (cp1 w))).
+Proof. unfold set_cache. destruct p; reflexivity. Qed.
+
+Lemma flush_loop_caches C p : forall l w, cache (getp w p) = l -> caches (flush_loop C l w p) = flushed p w.
 Proof.
-  unfold flush. cbv zeta.
-  pose proof (foldl_caches (fun w bk => pvDeleteBlock C w p bk) (cache (getp w p)) (fun w b => pvDeleteBlock_caches C w p b) w) as F.
-  unfold caches in *. apply pair_equal_spec in F. destruct F as [F0 F1]. destruct p; cbn [getp setp cp0 cp1 cache] in *; rewrite ?F0, ?F1; reflexivity.
+  induction l as [|bk rest IH]; intros w E.
+  - simpl. unfold flushed, caches. destruct p; simpl in *; rewrite E; reflexivity.
+  - cbn [flush_loop]. rewrite IH.
+    + unfold flushed. pose proof (pvDeleteBlock_caches C (set_cache w p rest) p bk) as K. rewrite set_cache_caches in K.
+      unfold caches in K. destruct p; apply pair_equal_spec in K; destruct K as [K0 K1]; simpl in *; rewrite ?K0, ?K1; reflexivity.
+    + pose proof (pvDeleteBlock_caches C (set_cache w p rest) p bk) as K. rewrite set_cache_caches in K.
+      unfold caches in K. destruct p; apply pair_equal_spec in K; destruct K as [K0 K1]; simpl in *; assumption.
 Qed.
+Lemma flush_caches C w p : caches (flush C w p) = flushed p w.
+Proof. unfold flush. apply flush_loop_caches. reflexivity. Qed.
+Lemma flush_cache_empty C w p : cache (getp (flush C w p) p) = [].
+Proof. pose proof (flush_caches C w p) as F. unfold caches, flushed in F. destruct p; apply pair_equal_spec in F; destruct F; simpl; assumption. Qed.
 
 Definition bounded (CF : Z) (w : cworld) : Prop := lenz (cache (cp0 w)) <= CF /\ lenz (cache (cp1 w)) <= CF.
 
 Lemma bounded_of_caches CF w w' : caches w' = caches w -> bounded CF w -> bounded CF w'.
-Proof. unfold caches, bounded. intros E. inversion E as [[E0 E1]]. rewrite E0, E1. auto. Qed.
+Proof. unfold caches, bounded. intros E. apply pair_equal_spec in E. destruct E as [E0 E1]. rewrite E0, E1. auto. Qed.
+
+Lemma remove_live_caches w p bk : caches (remove_live w p bk) = caches w.
+Proof. unfold remove_live. apply caches_setp_same. reflexivity. Qed.
+Lemma add_live_caches w p bk : caches (add_live w p bk) = caches w.
+Proof. unfold add_live. apply caches_setp_same. reflexivity. Qed.
 
 Lemma pvDeleteBlocks_caches C f w p b : caches (pvDeleteBlocks C f w p b) = caches w.
 Proof.
   unfold pvDeleteBlocks. apply foldl_caches. intros w0 i.
   destruct (memz i (chain_of w b)); [reflexivity|]. destruct (f (b, i)); [|reflexivity].
-  rewrite caches_setp_same by reflexivity. apply pvDeleteBlock_caches.
+  rewrite pvDeleteBlock_caches. apply remove_live_caches.
+Qed.
+
+Lemma bounded_flushed CF p w : 0 <= CF -> bounded CF w -> forall w', caches w' = flushed p w -> bounded CF w'.
+Proof.
+  intros H0 (B0 & B1) w' E. unfold caches, flushed in E. unfold bounded.
+  destruct p; apply pair_equal_spec in E; destruct E as [E0 E1]; rewrite E0, E1; cbn [lenz]; lia.
 Qed.
 
 Lemma cstep_bounded C CF uc w o : 1 <= CF -> bounded CF w -> bounded CF (cstep C CF uc w o).
@@ -237,31 +252,33 @@ Proof.
   - (* Allocate *)
     unfold Allocate. destruct (cache (getp w p)) as [|bk rest] eqn:E.
     + cbv zeta. destruct (pvNewBlock C w p) as [w1 b1] eqn:N. simpl fst.
-      eapply bounded_of_caches; [|exact Bd]. rewrite caches_setp_same by reflexivity.
+      eapply bounded_of_caches; [|exact Bd]. rewrite add_live_caches.
       change w1 with (fst (w1, b1)). rewrite <- N. apply pvNewBlock_caches.
     + destruct uc.
-      * cbv zeta. simpl fst. rewrite !getp_setp. cbn [lfull lfree cache acount live].
-        unfold bounded in *. destruct p; simpl in *; rewrite E in *; cbn [lenz] in *; pose proof (lenz_nonneg rest); lia.
+      * cbv zeta. simpl fst. unfold bounded in *.
+        pose proof (add_live_caches (set_cache w p rest) p bk) as K. rewrite set_cache_caches in K. unfold caches in K.
+        pose proof (lenz_nonneg rest).
+        destruct p; apply pair_equal_spec in K; destruct K as [K0 K1]; rewrite K0, K1; simpl in *; rewrite E in *; cbn [lenz] in *; lia.
       * cbv zeta. destruct (pvNewBlock C w p) as [w1 b1] eqn:N. simpl fst.
-        eapply bounded_of_caches; [|exact Bd]. rewrite caches_setp_same by reflexivity.
+        eapply bounded_of_caches; [|exact Bd]. rewrite add_live_caches.
         change w1 with (fst (w1, b1)). rewrite <- N. apply pvNewBlock_caches.
   - (* Deallocate *)
-    destruct uc.
-    + unfold Deallocate. cbv zeta.
-      set (w0 := if CF <=? lenz (cache (getp w p)) then flush C w p else w).
-      assert (lenz (cache (getp w0 p)) + 1 <= CF /\ cache (getp w0 (negb p)) = cache (getp w (negb p))) as (A1 & A2).
-      { unfold w0. destruct (Z.leb_spec CF (lenz (cache (getp w p)))) as [L|L]; [|split; [lia|reflexivity]].
-        pose proof (flush_caches C w p) as F. unfold caches in F.
-        destruct p; cbn [getp negb] in *; apply pair_equal_spec in F; destruct F as [F0 F1]; rewrite ?F0, ?F1; cbn [lenz]; split; try lia; reflexivity. }
-      clearbody w0. unfold bounded in *. destruct p; cbn [getp negb setp cp0 cp1 cache lenz] in *; rewrite ?A2; lia.
-    + unfold Deallocate. cbv zeta. eapply bounded_of_caches; [|exact Bd].
-      rewrite caches_setp_same by reflexivity. apply pvDeleteBlock_caches.
+    unfold Deallocate. cbv zeta. set (wr := remove_live w p bk).
+    assert (bounded CF wr) as Br by (eapply bounded_of_caches; [apply remove_live_caches|exact Bd]).
+    destruct uc; [|eapply bounded_of_caches; [apply pvDeleteBlock_caches|exact Br]].
+    set (w0 := if CF <=? lenz (cache (getp wr p)) then flush C wr p else wr).
+    assert (lenz (cache (getp w0 p)) + 1 <= CF /\ cache (getp w0 (negb p)) = cache (getp wr (negb p))) as (A1 & A2).
+    { unfold w0. destruct (Z.leb_spec CF (lenz (cache (getp wr p)))) as [L|L]; [|split; [lia|reflexivity]].
+      pose proof (flush_caches C wr p) as F. unfold caches, flushed in F.
+      destruct p; cbn [getp negb] in *; apply pair_equal_spec in F; destruct F as [F0 F1]; rewrite ?F0, ?F1; cbn [lenz]; split; try lia; reflexivity. }
+    clearbody w0. pose proof (set_cache_caches w0 p (bk :: cache (getp w0 p))) as K. unfold caches in K.
+    unfold bounded in *.
+    destruct p; apply pair_equal_spec in K; destruct K as [K0 K1]; rewrite K0, K1; cbn [getp negb lenz] in *; rewrite ?A2; lia.
   - (* DeallocateIf *)
     unfold DeallocateIf. cbv zeta.
     set (w1 := if uc then flush C w p else w).
     assert (bounded CF w1) as B1.
-    { unfold w1. destruct uc; [|exact Bd]. pose proof (flush_caches C w p) as F. unfold caches in F. unfold bounded in *.
-      destruct p; apply pair_equal_spec in F; destruct F as [F0 F1]; rewrite F0, F1; cbn [lenz]; lia. }
+    { unfold w1. destruct uc; [|exact Bd]. apply (bounded_flushed CF p w); [lia|exact Bd|apply flush_caches]. }
     destruct (acount (getp w1 p) =? 0); [exact B1|].
     eapply bounded_of_caches; [|exact B1].
     rewrite foldl_caches by (intros; apply pvDeleteBlocks_caches).
@@ -279,8 +296,7 @@ Proof.
     unfold MergeFrom. cbv zeta.
     set (w1 := if uc then flush C w (negb d) else w).
     assert (bounded CF w1) as B1.
-    { unfold w1. destruct uc; [|exact Bd]. pose proof (flush_caches C w (negb d)) as F. unfold caches in F. unfold bounded in *.
-      destruct d; cbn [negb] in *; apply pair_equal_spec in F; destruct F as [F0 F1]; rewrite F0, F1; cbn [lenz]; lia. }
+    { unfold w1. destruct uc; [|exact Bd]. apply (bounded_flushed CF (negb d) w); [lia|exact Bd|apply flush_caches]. }
     clearbody w1. unfold bounded in *.
     destruct (lfree (getp w1 (negb d))); [|destruct (lfree (getp w1 d))]; destruct d; simpl; tauto.
 Qed.
